@@ -48,6 +48,13 @@ func fieldPtrOf(e ff.Element) interface{} {
 func (h *hist) field(i int) ff.Field {
 	for len(h.fields) <= i {
 		d := h.desc
+		// `P:7,P:11`: field object k is defined from the k-th descriptor (further ones are twins of the first)
+		if ds := strings.Split(d, ","); len(ds) > 1 {
+			d = ds[0]
+			if len(h.fields) < len(ds) {
+				d = ds[len(h.fields)]
+			}
+		}
 		parts := strings.Split(d, ":")
 		if parts[0] == "B" && len(parts) == 4 {
 			d = strings.Join(parts[:3], ":")
@@ -323,7 +330,7 @@ func newHist(fd, uSpec, bSpec string) *hist {
 		}
 		h.br[1] = qr
 	}
-	if parts := strings.Split(fd, ":"); parts[0] == "B" && len(parts) == 4 {
+	if parts := strings.Split(strings.Split(fd, ",")[0], ":"); parts[0] == "B" && len(parts) == 4 {
 		// binfield.SetVarName: the field variable is renamed AFTER the field and the rings of this history
 		// have been used for parsing once (anything cached per field/ring must notice the new name)
 		bf := h.fields[0].(*binfield.Field)
